@@ -2,7 +2,7 @@
     Statements only; proofs are in CodecRT.v / CodecV1.v / Reload.v (generic in the format [f]);
     in the world-level theorem at the end every tree has its own format. *)
 From Coq Require Import List NArith ZArith Bool.
-From Mast Require Import WorldInv Prim Key Tree KeyOrder Codec CodecRT CodecV1 Store Diff World Erase Build Spec Canon Links Level Inv Persist Hist Reload.
+From Mast Require Import WorldInv Prim Key Tree KeyOrder Codec CodecRT CodecV1 DecRT RootRT Store Diff World Erase Build Spec Canon Links Level Inv Persist Hist Reload.
 Import ListNotations.
 
 (** the compact binary node format round-trips for arbitrary element bodies (keys, values: any
@@ -33,6 +33,22 @@ Theorem C05_v1_key_texts : forall k, key_v1_ok k -> elem_ok (kmarshal k) = true.
 Proof. exact kmarshal_elem_ok. Qed.
 Theorem C05_v1_names : forall b, plain (name_of b) = true.
 Proof. exact name_plain. Qed.
+
+(** "... directly or after the root record has been serialized to JSON and back": the JSON text of
+    a Root (compared byte for byte with the implementation's on every run) reads back to the same
+    record - numbers of at most 40 digits, link and format string without a quote; the model's
+    LoadMast step takes the Root through this text ([root_via_json] in World.step), as the harness does *)
+Theorem C05_root_json_roundtrip : forall r, root_wf r -> parse_root (root_json r) = Some r.
+Proof. exact parse_root_json. Qed.
+
+(** "every supported key type whose encoding round-trips": every int64 and uint64 key and every
+    string key does (decimal printing and parsing are inverse below 10^40) *)
+Theorem C05_int_keys_roundtrip : forall z, (- 9223372036854775808 <= z <= 9223372036854775807)%Z -> key_rt 0 (KInt z).
+Proof. exact key_rt_int. Qed.
+Theorem C05_uint_keys_roundtrip : forall n, (n <= 18446744073709551615)%N -> key_rt 1 (KUint n).
+Proof. exact key_rt_uint. Qed.
+Theorem C05_string_keys_roundtrip : forall s, key_rt 2 (KStr s).
+Proof. exact key_rt_str. Qed.
 
 (** Persisting a tree of ANY residency mix (in-memory nodes, nodes already in the store, or both)
     and loading the returned root from the resulting store yields a tree with exactly the same entries
@@ -151,12 +167,15 @@ Example C05_example_both_formats :
   map (fun x => pobs (fst x)) (run empty_world ex_ops_both) = arun2 ([], []) ex_ops_both.
 Proof. split; [apply condsb_ok; vm_compute; reflexivity|]. vm_compute. repeat split; reflexivity. Qed.
 
-(** PARTIAL: the Root record's JSON form is modelled byte-exactly (Codec.v) and compared with the
-    implementation on every run, but its round trip is not proved; custom marshalers and caches are
-    outside the model. *)
+(** PARTIAL: custom marshalers and caches are outside the model (decided by the correspondence
+    check); the round trip of []byte and mast.Key keys is a hypothesis ([key_rt], decidable). *)
 Print Assumptions C05_binary_roundtrip.
 Print Assumptions C05_uvarint_roundtrip.
 Print Assumptions C05_v1_roundtrip.
+Print Assumptions C05_root_json_roundtrip.
+Print Assumptions C05_int_keys_roundtrip.
+Print Assumptions C05_uint_keys_roundtrip.
+Print Assumptions C05_string_keys_roundtrip.
 Print Assumptions C05_v1_key_texts.
 Print Assumptions C05_v1_names.
 Print Assumptions C05_list_ok_binary.
